@@ -106,6 +106,8 @@ func (db *DB) Merge() error {
 			if pos != nil && pos.Fid == dataFile.ID &&
 				pos.Offset == logRecordPos.Offset && pos.BlockID == logRecordPos.BlockID {
 				// 将数据重写到 merge 临时目录中
+				// 批处理写入的有效记录重写为普通记录, 重写后不再有对应的批处理完成标识记录
+				logRecord.BatchID = 0
 				pos, err := mergeDB.appendLogRecord(logRecord)
 				if err != nil {
 					return err
